@@ -56,6 +56,11 @@ class Prop(common.PropertyCheck):
                    'levels': [(-6, 60), (-3, 12), (-40, 3), (0, 20)][i % 4], 'idt': ['int32', 'int64', 'int16', 'int8'][(i // 2) % 4],
                    'req': ['none', 'subset', 'all_reordered', 'scalar'][(i // 3) % 4], 'negdata': True, 'dupnames': False, 'scform': ['pos', 'default'][i % 2], 'bad': None, 'neg': False}
 
+        # requests given as NumPy arrays of names or of positions, with and without an uncovered channel
+        for i in range(self.budget(60, 400)):
+            D = rng.randrange(3, 6)
+            yield {'k': 'mef', 'cont': ['sample', 'array', 'sample'][i % 3], 'D': D, 'nc': rng.randrange(1, D), 'seed': rng.randrange(1 << 30), 'req': ['uncovered', 'subset', 'uncovered', 'all_reordered'][i % 4],
+                   'negdata': False, 'dupnames': False, 'scform': ['names', 'pos'][i % 2], 'bad': None, 'neg': False, 'req_ndarray': True}
         # the channels of the curves left to their default (one curve per channel of the sample) while fewer curves are supplied: refused, however many channels are requested
         for i in range(self.budget(18, 120)):
             yield {'k': 'default_short', 'cont': ['array', 'sample'][i % 2], 'D': 3 + i % 3, 'ncur': 1 + i % 2, 'req': ['same_len', 'scalar', 'none', 'same_len_names'][i % 4], 'seed': rng.randrange(1 << 30)}
@@ -191,8 +196,13 @@ class Prop(common.PropertyCheck):
                'args': {'channels': None if channels is None else ({'list': channels} if isinstance(channels, list) else {'scalar': channels}),
                         'sc_channels': sc_channels}}
         st0 = fpm.state(d) if names else None
+        ch_arg = channels
+        # (samples: arrays of names; plain arrays: arrays of positions -- NumPy integers are not accepted as positions of a sample)
+        if case.get('req_ndarray') and isinstance(channels, list) and channels and (all(isinstance(c, str) for c in channels) if names else all(isinstance(c, int) for c in channels)):
+            ch_arg = np.array(channels)          # the request as a NumPy array of names or of positions (e.g. np.array(d.channels)[mask])
+            out['args']['ndarray'] = True
         try:
-            t = FlowCal.transform.to_mef(d, channels, sc_list, sc_channels)
+            t = FlowCal.transform.to_mef(d, ch_arg, sc_list, sc_channels)
         except Exception as e:
             out['err'] = type(e).__name__
             return out
